@@ -17,7 +17,8 @@ RULE = (
     "Hypothesis generates scenarios: 2-3 JournalFileBackend objects on one file, each with its "
     "own lock object (symlink lock or O_EXCL lock), each running 1-3 calls append_logs([1-3 "
     "records of 20 B - 3 KB]) / read_logs(k) with k = 0, a position the worker has already "
-    "reached, or a position beyond the end; writes are delivered in generated chunk sizes. The "
+    "reached, or a position beyond the end; writes are delivered in generated chunk sizes; in half "
+    "of the scenarios the journal file was last modified an hour ago. The "
     "harness owns the interleaving: every system call of _file.py (symlink/open(O_EXCL)/stat/"
     "rename/unlink, open, each write chunk, flush, fsync, each readline, seek, sleep on a virtual "
     "clock) is a yield point of a deterministic scheduler. For every scenario ALL "
